@@ -66,13 +66,14 @@ func cmdLenArg(info *types.Info, e ast.Expr) (ast.Expr, bool) {
 type e2Func struct {
 	fd       *ast.FuncDecl
 	cmdOwner map[types.Object]map[string]bool // cmd variable -> path keys it was read from
-	cmdIndex map[types.Object]types.Object    // cmd variable -> cursor identifier object (when `cmd := A.d[i]`)
+	cmdIndex map[types.Object]types.Object    // cmd variable -> cursor identifier object (when `cmd := A.d[i]` or `cmd := A.d[i-1]`)
+	cmdOff   map[types.Object]int             // 0 for `A.d[i]` (first value of the record), -1 for `A.d[i-1]` (last value, reverse decoders)
 	cursors  map[types.Object]map[string]bool // cursor -> owning path keys
 }
 
 func e2Scan(p *packages.Package, fd *ast.FuncDecl) *e2Func {
 	info := p.TypesInfo
-	f := &e2Func{fd: fd, cmdOwner: map[types.Object]map[string]bool{}, cmdIndex: map[types.Object]types.Object{}, cursors: map[types.Object]map[string]bool{}}
+	f := &e2Func{fd: fd, cmdOwner: map[types.Object]map[string]bool{}, cmdIndex: map[types.Object]types.Object{}, cmdOff: map[types.Object]int{}, cursors: map[types.Object]map[string]bool{}}
 	ast.Inspect(fd.Body, func(n ast.Node) bool {
 		as, ok := n.(*ast.AssignStmt)
 		if !ok || len(as.Lhs) != len(as.Rhs) {
@@ -91,6 +92,12 @@ func e2Scan(p *packages.Package, fd *ast.FuncDecl) *e2Func {
 				f.cmdOwner[o][key] = true
 				if cid, ok := core.Unparen(ie.Index).(*ast.Ident); ok {
 					f.cmdIndex[o] = core.ObjOf(info, cid)
+					f.cmdOff[o] = 0
+				} else if _, k, ok := linForm(info, ie.Index); ok && k == -1 {
+					if cid, ok := core.Unparen(stripConst(ie.Index)).(*ast.Ident); ok {
+						f.cmdIndex[o] = core.ObjOf(info, cid)
+						f.cmdOff[o] = -1
+					}
 				}
 			}
 		}
@@ -561,12 +568,19 @@ type decoderSite struct {
 	ie   *ast.IndexExpr
 	path string   // path variable key
 	base string   // cursor name
-	k    int      // offset
+	k    int      // offset from the first value of the record (valid when !mixed)
 	set  []string // commands possible here
+	raw  int      // offset from the cursor as written
+	m    int      // the cursor stands m record lengths after the record's first value (0: at its start, 1: just past its end)
+	mixed bool    // m == 1 and the commands of the set differ in length: k depends on the command
+	unknown bool  // the cursor was moved in a way the walker does not follow between the read of cmd and this site
 }
 
-// decoderSites walks a function and reports every index A.d[i+k] (k >= 0) made with the cursor i
-// of a `cmd := A.d[i]` inside `case C…` / `if cmd == C` contexts (with if/else refinement).
+// decoderSites walks a function and reports every index A.d[i±k] made with the cursor i of a
+// `cmd := A.d[i]` (forward) or `cmd := A.d[i-1]` (reverse) inside `case C…` / `if cmd == C` contexts
+// (with if/else refinement). It follows `i += cmdLen(cmd)` / `i -= cmdLen(cmd)` statements that lie
+// between the read of cmd and the site in the same statement list, so that offsets are known
+// relative to the record: k = raw + m*len(C).
 func decoderSites(p *packages.Package, fd *ast.FuncDecl, onCase func(), visit func(decoderSite)) {
 	info := p.TypesInfo
 	f := e2Scan(p, fd)
@@ -577,6 +591,8 @@ func decoderSites(p *packages.Package, fd *ast.FuncDecl, onCase func(), visit fu
 		cmdObj types.Object
 		set    []string
 	}
+	// adv: per cmd variable, how many record lengths the cursor moved since cmd was read (99 = unknown)
+	adv := map[types.Object]int{}
 	var walk func(n ast.Node, cx []ctx)
 	checkSites := func(n ast.Node, cx []ctx) {
 		ast.Inspect(n, func(m ast.Node) bool {
@@ -597,10 +613,34 @@ func decoderSites(p *packages.Package, fd *ast.FuncDecl, onCase func(), visit fu
 				if !isId || core.ObjOf(info, id) != cur {
 					continue
 				}
-				if k < 0 {
-					continue // previous record's tail; covered by the cursor-domain rule only
+				site := decoderSite{ie: ie, path: key, base: base, set: x.set, raw: k}
+				a := adv[x.cmdObj]
+				if a == 99 {
+					site.unknown = true
+					visit(site)
+					continue
 				}
-				visit(decoderSite{ie, key, base, k, x.set})
+				site.m = a
+				if f.cmdOff[x.cmdObj] == -1 {
+					site.m++
+				}
+				switch site.m {
+				case 0:
+					site.k = k
+				case 1:
+					L := -1
+					for _, cn := range x.set {
+						if L == -1 {
+							L = recordLen[cn]
+						} else if L != recordLen[cn] {
+							site.mixed = true
+						}
+					}
+					site.k = k + L
+				default:
+					site.unknown = true
+				}
+				visit(site)
 			}
 			return true
 		})
@@ -718,20 +758,68 @@ func decoderSites(p *packages.Package, fd *ast.FuncDecl, onCase func(), visit fu
 						elseSet = append(elseSet, s)
 					}
 				}
+				before := copyAdv(adv)
 				if len(thenSet) > 0 {
 					walk(x.Body, append(append([]ctx{}, outer...), ctx{o, thenSet}))
 				}
+				afterThen := copyAdv(adv)
+				setAdv(adv, before)
 				if x.Else != nil && len(elseSet) > 0 {
 					walk(x.Else, append(append([]ctx{}, outer...), ctx{o, elseSet}))
 				}
+				mergeAdv(adv, afterThen)
 				return
 			}
 			checkSites(x.Cond, cx)
+			before := copyAdv(adv)
 			walk(x.Body, cx)
+			afterThen := copyAdv(adv)
+			setAdv(adv, before)
 			walk(x.Else, cx)
+			mergeAdv(adv, afterThen)
 		case *ast.BlockStmt:
+			saved := map[types.Object]int{}
+			for o, a := range adv {
+				saved[o] = a
+			}
 			for _, s := range x.List {
 				walk(s, cx)
+				// cursor movements made by this statement, for the statements that follow it
+				for o, cur := range f.cmdIndex {
+					if as, ok := s.(*ast.AssignStmt); ok {
+						// (re-)reading cmd fixes the relation again
+						for _, l := range as.Lhs {
+							if id, ok := l.(*ast.Ident); ok && core.ObjOf(info, id) == o {
+								adv[o] = 0
+							}
+						}
+						if len(as.Lhs) == 1 && (as.Tok == token.ADD_ASSIGN || as.Tok == token.SUB_ASSIGN) {
+							if id, ok := as.Lhs[0].(*ast.Ident); ok && core.ObjOf(info, id) == cur {
+								if arg, ok := cmdLenArg(info, as.Rhs[0]); ok {
+									if aid, ok := core.Unparen(arg).(*ast.Ident); ok && core.ObjOf(info, aid) == o && adv[o] != 99 {
+										if as.Tok == token.ADD_ASSIGN {
+											adv[o]++
+										} else {
+											adv[o]--
+										}
+										continue
+									}
+								}
+								adv[o] = 99
+							}
+						}
+						continue
+					}
+					if assigns(s, cur) {
+						adv[o] = 99 // moved inside a nested statement: not followed
+					}
+				}
+			}
+			// leaving the block: if it moved the cursor, the statements after it do not know where it stands
+			for o, a := range adv {
+				if b, had := saved[o]; (had && a != b) || (!had && a != 0) {
+					adv[o] = 99
+				}
 			}
 		case *ast.ForStmt:
 			walk(x.Init, cx)
@@ -757,30 +845,82 @@ func decoderSites(p *packages.Package, fd *ast.FuncDecl, onCase func(), visit fu
 	walk(fd.Body, nil)
 }
 
+func copyAdv(a map[types.Object]int) map[types.Object]int {
+	out := map[types.Object]int{}
+	for k, v := range a {
+		out[k] = v
+	}
+	return out
+}
+
+func setAdv(dst, src map[types.Object]int) {
+	for k := range dst {
+		delete(dst, k)
+	}
+	for k, v := range src {
+		dst[k] = v
+	}
+}
+
+// mergeAdv joins two branch states: where they differ the cursor position is unknown.
+func mergeAdv(dst, other map[types.Object]int) {
+	for k, v := range other {
+		if dv, ok := dst[k]; !ok && v != 0 || ok && dv != v {
+			dst[k] = 99
+		}
+	}
+	for k, dv := range dst {
+		if v, ok := other[k]; !ok && dv != 0 || ok && dv != v {
+			dst[k] = 99
+		}
+	}
+}
+
 // E2RecordLayout: payload offsets stay inside the record of the command being decoded.
 func E2RecordLayout(c *core.Ctx, r *core.Report) {
-	r.Rule("E2.layout", "inside `case C` / `if cmd == C` of a decoder whose cmd was read at A.d[i], a read A.d[i+k] has 0 <= k <= cmdLens[C]-1 for every C of that case (if/else chains on cmd refine the set)")
+	r.Rule("E2.layout", "inside `case C` / `if cmd == C` of a decoder whose cmd was read at A.d[i] (forward) or A.d[i-1] (reverse), an access A.d[i±k] lies inside the record of C for every C of that case (if/else chains on cmd refine the set): with the cursor at the record's start 0 <= k <= cmdLens[C]-1, after `i += cmdLen(cmd)` (or before `i -= cmdLen(cmd)` in a reverse decoder) -cmdLens[C] <= k <= -1; the previous record's end point (start-3..start-1) and the next record's tag are the only accesses allowed outside")
 	p := c.MustPkg("")
 	for _, fd := range core.AllFuncDecls(p) {
 		fn := "canvas." + core.FuncName(fd)
 		decoderSites(p, fd, func() { r.Count("E2.layout-cases", 1) }, func(s decoderSite) {
-			minL := 99
+			r.Count("E2.layout-sites", 1)
+			idx := fmt.Sprintf("%s.d[%s+%d]", pathVarName(s.path), s.base, s.raw)
+			if s.raw < 0 {
+				idx = fmt.Sprintf("%s.d[%s-%d]", pathVarName(s.path), s.base, -s.raw)
+			}
+			skey := fmt.Sprintf("%s|{%s}|%s", fn, strings.Join(s.set, ","), idx)
+			if s.unknown {
+				r.Fail("E2.layout", skey, c.Pos(s.ie.Pos()), "the cursor is moved between the read of the command and this access in a way the rule does not follow (not by a plain `i += cmdLen(cmd)` in the same statement list); the offset cannot be related to the record")
+				return
+			}
+			if s.m == 1 {
+				r.Count("E2.layout-post-advance-sites", 1)
+			}
+			// offset relative to the first value of the record, for every command possible here
 			for _, cn := range s.set {
-				if L := recordLen[cn]; L < minL {
-					minL = L
+				L := recordLen[cn]
+				rel := s.raw + s.m*L
+				switch {
+				case 0 <= rel && rel <= L-1:
+				case s.m == 0 && -3 <= rel && rel <= -1:
+					// the end point / closing tag of the previous record (every record ends with x, y, cmd)
+				case s.m == 1 && rel == L:
+					// the tag of the next record
+				default:
+					where := "at the start of"
+					if s.m == 1 {
+						where = "just past the end of"
+					}
+					r.Fail("E2.layout", skey, c.Pos(s.ie.Pos()), fmt.Sprintf("with the cursor %s a %s record (%d values) the access %s lies at position %d of the record: outside it (and not the previous end point or the next tag)", where, cn, L, idx, rel))
+					return
 				}
 			}
-			r.Count("E2.layout-sites", 1)
-			skey := fmt.Sprintf("%s|{%s}|%s.d[%s+%d]", fn, strings.Join(s.set, ","), pathVarName(s.path), s.base, s.k)
-			if s.k > minL-1 {
-				r.Fail("E2.layout", skey, c.Pos(s.ie.Pos()), fmt.Sprintf("offset +%d is outside a record of %d values (commands possible here: %s); it reads the next command's data", s.k, minL, strings.Join(s.set, ",")))
-			} else {
-				r.OK("E2.layout", skey, c.Pos(s.ie.Pos()), "")
-			}
+			r.OK("E2.layout", skey, c.Pos(s.ie.Pos()), "")
 		})
 	}
 	r.Floor("E2.layout-cases", 60)
-	r.Floor("E2.layout-sites", 250)
+	r.Floor("E2.layout-sites", 400)
+	r.Floor("E2.layout-post-advance-sites", 30)
 }
 
 // stripConst removes `± const` / `± cmdLen(Const)` terms to expose the base expression.
@@ -822,7 +962,11 @@ func E2PenTracking(c *core.Ctx, r *core.Report, funcs []string) {
 			set []string
 		}
 		facts := map[*ast.IndexExpr]fact{}
-		decoderSites(p, fd, func() {}, func(s decoderSite) { facts[s.ie] = fact{s.k, s.set} })
+		decoderSites(p, fd, func() {}, func(s decoderSite) {
+			if !s.unknown && !s.mixed {
+				facts[s.ie] = fact{s.k, s.set}
+			}
+		})
 		ast.Inspect(fd.Body, func(n ast.Node) bool {
 			as, ok := n.(*ast.AssignStmt)
 			if !ok || as.Tok != token.ASSIGN || len(as.Lhs) != 2 || len(as.Rhs) != 2 {
